@@ -1,5 +1,201 @@
-"""Kani side (filled in below)."""
+"""Kani side: copy /repo's working tree to a scratch directory outside /repo and /verif, append
+#[cfg(kani)] harness modules to the named source files (child modules see private items), insert
+#[cfg_attr(kani, kani::requires/ensures(..))] lines above named fns, run `cargo kani`, parse the
+per-harness verdicts, and remove the copy together with its target/.
+
+A group is units/kani/<group>/group.json:
+  { "crate": "ic-btc-canister",
+    "append": [ {"file": "canister/src/types.rs", "from": "types_harness.rs"} ],
+    "attrs":  [ {"file": "..", "in": "impl X" | null, "item": "fn name", "lines": ["#[cfg_attr(kani, ...)]"]} ],
+    "harnesses": [ {"name": "..", "props": ["C01"], "kind": "complete"|"bounded", "tier": "quick"|"thorough",
+                    "target": "file::fn", "what": "...", "complete_because": "...", "bound": "..."} ] }
+"""
+import json
+import os
+import re
+import shutil
+import subprocess
+import tempfile
+import time
+
+import extract
+from rustlex import line_start
+
+HERE = os.path.dirname(os.path.abspath(__file__))
+ROOT = os.path.dirname(HERE)
+REPO = os.environ.get("VP_REPO", "/repo")
 
 
-def run_groups(groups, pid, tier):
-    return dict(harnesses=[], cmds=[], trusted=[], solver_s=0)
+def load_group(name):
+    d = os.path.join(ROOT, "units", "kani", name)
+    with open(os.path.join(d, "group.json")) as f:
+        g = json.load(f)
+    g["dir"] = d
+    g["name"] = name
+    return g
+
+
+def make_scratch():
+    d = tempfile.mkdtemp(prefix="vp_kani_")
+    dst = os.path.join(d, "repo")
+    subprocess.run(["rsync", "-a", "--exclude", "target", "--exclude", ".git", REPO + "/", dst + "/"], check=True)
+    cfgdir = os.path.join(dst, ".cargo")
+    os.makedirs(cfgdir, exist_ok=True)
+    with open(os.path.join(cfgdir, "config.toml"), "a") as f:
+        f.write("\n[net]\noffline = true\n")
+    return d, dst
+
+
+def inject(dst, g):
+    notes = []
+    for a in g.get("attrs", []):
+        # locate with the same extractor as the Verus side, on the scratch copy
+        old = extract.REPO
+        extract.REPO = dst
+        extract._src_cache.clear()
+        try:
+            it = extract.find_item(a["file"], a.get("in"), a["item"])
+        finally:
+            extract.REPO = old
+            extract._src_cache.clear()
+        p = os.path.join(dst, a["file"])
+        s = open(p).read()
+        # the fn keyword line
+        pos = it["start"] + it.get("kw", 0)
+        ls = line_start(s, pos)
+        indent = re.match(r"[ \t]*", s[ls:]).group(0)
+        ins = "".join(indent + l + "\n" for l in a["lines"])
+        s = s[:ls] + ins + s[ls:]
+        open(p, "w").write(s)
+        notes.append("contract attributes on %s %s" % (a["file"], a["item"]))
+    for a in g.get("append", []):
+        p = os.path.join(dst, a["file"])
+        with open(os.path.join(g["dir"], a["from"])) as f:
+            h = f.read()
+        with open(p, "a") as f:
+            f.write("\n\n// ---- injected by /verif (cfg(kani) only) ----\n" + h)
+    for a in g.get("prepend", []):
+        p = os.path.join(dst, a["file"])
+        s = open(p).read()
+        open(p, "w").write("".join(l + "\n" for l in a["lines"]) + s)
+    return notes
+
+
+RESULT_RX = re.compile(r"VERIFICATION:- (SUCCESSFUL|FAILED)")
+
+
+def parse_output(out, names):
+    """per-harness verdicts from cargo kani's output (default or terse format)"""
+    res = {}
+    # split on "Checking harness <name>..."
+    chunks = re.split(r"Checking harness ([\w:]+)\.\.\.", out)
+    # chunks: [pre, name1, body1, name2, body2, ...]
+    for i in range(1, len(chunks) - 1, 2):
+        nm = chunks[i].split("::")[-1]
+        body = chunks[i + 1]
+        m = RESULT_RX.search(body)
+        cover = re.search(r"\*\* (\d+) of (\d+) cover properties satisfied", body)
+        failed = re.findall(r"Failed Checks: (.*)", body)
+        tm = re.search(r"Verification Time: ([\d.]+)s", body)
+        res[nm] = dict(verdict=m.group(1) if m else None, cover=(int(cover.group(1)), int(cover.group(2))) if cover else None,
+                       failed_checks=failed[:10], time_s=float(tm.group(1)) if tm else None, body=body[-3000:])
+    # summary lines (with -j the bodies can interleave; the summary is authoritative for failures)
+    for m in re.finditer(r"Verification failed for - ([\w:]+)", out):
+        nm = m.group(1).split("::")[-1]
+        res.setdefault(nm, dict(verdict=None, cover=None, failed_checks=[], time_s=None, body=""))
+        res[nm]["verdict"] = "FAILED"
+    return res
+
+
+def run_groups(groups, pid, tier, jobs=8):
+    out = dict(harnesses=[], cmds=[], trusted=[], solver_s=0.0)
+    for gname in groups:
+        g = load_group(gname)
+        hs = [h for h in g["harnesses"] if pid in h["props"] and (tier == "thorough" or h.get("tier", "quick") == "quick")]
+        if not hs:
+            continue
+        scratch = None
+        try:
+            scratch, dst = make_scratch()
+            try:
+                inject(dst, g)
+            except (extract.AnchorLost, OSError) as e:
+                for h in hs:
+                    out["harnesses"].append(dict(h, status="undecided", detail="injection failed: %s" % e))
+                continue
+            cmd = ["cargo", "kani", "-p", g["crate"], "-Z", "function-contracts", "-Z", "stubbing"] + g.get("flags", [])
+            for h in hs:
+                cmd += ["--harness", h["name"]]
+            if len(hs) > 1:
+                cmd += ["-j", str(min(jobs, len(hs))), "--output-format=terse"]
+            env = dict(os.environ, CARGO_NET_OFFLINE="true", CARGO_TARGET_DIR=os.path.join(scratch, "target"))
+            out["cmds"].append("CARGO_NET_OFFLINE=true " + " ".join(cmd) + "   (in a scratch copy of /repo with units/kani/%s injected)" % gname)
+            t0 = time.time()
+            to = g.get("timeout_s", 1500 if tier == "quick" else 3600)
+            try:
+                p = subprocess.run(["timeout", str(to)] + cmd, cwd=dst, env=env, capture_output=True, text=True)
+                txt = p.stdout + "\n" + p.stderr
+                rc = p.returncode
+            except Exception as e:  # noqa
+                txt, rc = "runner error: %s" % e, 99
+            wall = time.time() - t0
+            parsed = parse_output(txt, [h["name"] for h in hs])
+            for h in hs:
+                r = parsed.get(h["name"])
+                hh = dict(h)
+                hh["file"] = h.get("target", "").split("::")[0]
+                if r is None or r["verdict"] is None:
+                    hh["status"] = "undecided"
+                    tail = txt[-1200:] if rc != 0 else ""
+                    hh["detail"] = "no verdict (rc=%s, %.0fs)%s" % (rc, wall, (": " + tail) if tail else "")
+                elif r["verdict"] == "SUCCESSFUL":
+                    if r["cover"] is not None and r["cover"][0] < r["cover"][1]:
+                        hh["status"] = "undecided"
+                        hh["detail"] = "vacuous: only %d of %d cover properties satisfied" % r["cover"]
+                    else:
+                        hh["status"] = "ok"
+                    hh["time_s"] = r["time_s"]
+                    hh["cover"] = r["cover"]
+                else:
+                    # unwinding-assertion-only failures of a bounded harness are 'bound too small', not violations
+                    fc = " ".join(r["failed_checks"])
+                    only_unwind = r["failed_checks"] and all("unwinding assertion" in x for x in r["failed_checks"])
+                    if only_unwind:
+                        hh["status"] = "undecided"
+                        hh["detail"] = "unwinding bound too small: %s" % fc[:300]
+                    else:
+                        hh["status"] = "failed"
+                        hh["output"] = "Kani harness %s FAILED\n%s" % (h["name"], r["body"][-2500:])
+                        hh["time_s"] = r["time_s"]
+                out["solver_s"] += r["time_s"] or 0 if r else 0
+                out["harnesses"].append(hh)
+            # concrete playback for failures (second invocation, one harness at a time)
+            for hh in out["harnesses"]:
+                if hh.get("status") == "failed" and "playback" not in hh and hh["name"] in [h["name"] for h in hs]:
+                    pc = ["cargo", "kani", "-p", g["crate"], "-Z", "function-contracts", "-Z", "stubbing", "-Z", "concrete-playback",
+                          "--concrete-playback=print", "--harness", hh["name"]] + g.get("flags", [])
+                    try:
+                        pp = subprocess.run(["timeout", "900"] + pc, cwd=dst, env=env, capture_output=True, text=True)
+                        m = re.search(r"Concrete playback unit test for `[^`]*`:\s*```(.*?)```", pp.stdout, re.S)
+                        if m:
+                            hh["playback"] = m.group(1).strip()[:6000]
+                    except Exception:  # noqa
+                        pass
+            out["trusted"].append("kani group %s: harnesses run on the real functions of crate %s compiled by kani-compiler; "
+                                  "format!/fmt stubs as listed in the harness files" % (gname, g["crate"]))
+            for tline in g.get("trusted", []):
+                out["trusted"].append("kani group %s: %s" % (gname, tline))
+        finally:
+            if scratch:
+                shutil.rmtree(scratch, ignore_errors=True)
+    return out
+
+
+if __name__ == "__main__":
+    import sys
+    r = run_groups([sys.argv[1]], sys.argv[2], sys.argv[3] if len(sys.argv) > 3 else "quick")
+    for h in r["harnesses"]:
+        print(h["name"], h["status"], h.get("time_s"), h.get("detail", "")[:1500], h.get("output", "")[-1500:] if h["status"] == "failed" else "")
+        if h.get("playback"):
+            print("PLAYBACK:\n", h["playback"][:1500])
+    print(r["cmds"])
